@@ -801,7 +801,7 @@ static int vi_delete(int r1, int o1, int r2, int o2, int lnmode)
 	} else {
 		lbuf_edit(xb, NULL, r1, r2 + 1);
 	}
-	xrow = r1;
+	xrow = lnmode && r1 >= lbuf_len(xb) ? MAX(0, lbuf_len(xb) - 1) : r1;
 	xoff = lnmode ? lbuf_indents(xb, xrow) : o1;
 	free(pref);
 	free(post);
